@@ -166,7 +166,51 @@ Theorem C06_recent_write_complete_timed :
       present_or_beaten vec dist dg dle metric q k x (r_results r).
 Proof. exact recent_write_complete_timed. Qed.
 
-(* Without the guard the statement is FALSE in the faithful model (class C06-stale-mirrors-crowd-out-fresh-
+(* API HISTORIES.  Model/Knn.v `wstep` models every operation that creates or removes mirror entries:
+   TieredEngine::insert (cold insert, then mirror with the new canonical token), delete, bulk_load_cold_tier
+   (cold inserts, then — since repo commit b64dfda — the mirrors of ALL loaded ids are dropped), flush / emergency
+   drain, tombstone compaction, and the removals done by searches and audits.  Starting from an empty hot tier,
+   after ANY sequence of them the hot-tier keys are distinct and NO mirror is stale.  (Before b64dfda the
+   WBulkLoad case of this proof failed: the mirrors of overwritten ids stayed with outdated tokens.) *)
+Theorem C06_api_history_no_stale_mirror :
+  forall (vec dg : Type) (digest : vec -> dg) (dg_eqb : dg -> dg -> bool),
+    (forall a, dg_eqb a a = true) ->
+    forall (ops : list (wop vec)) (e0 : engine vec dg),
+      e_hot e0 = [] ->
+      hot_wf vec dg (e_hot (wrun digest e0 ops))
+      /\ forall y, In y (e_hot (wrun digest e0 ops)) -> fresh_mirror vec dg digest dg_eqb (e_cold (wrun digest e0 ops)) y.
+Proof. exact api_history_mirrors_ok. Qed.
+
+(* COROLLARY: in a state reached by an API history the recent-write clause holds WITHOUT the guard, for the sync
+   and the timed entry points: when no mirror is stale, 2k mirror entries preceding x all pass the canonical
+   filter, so the result is full of documents at least as close.  Any oracle; no ANN completeness assumed. *)
+Theorem C06_recent_write_complete_api :
+  forall (vec dist dg : Type) (dle : dist -> dist -> bool) (dfin : dist -> bool) (metric : vec -> vec -> dist)
+         (digest : vec -> dg) (dg_eqb : dg -> dg -> bool),
+    (forall a b, dle a b = true \/ dle b a = true) ->
+    (forall a b c, dle a b = true -> dle b c = true -> dle a c = true) ->
+    (forall a, dg_eqb a a = true) ->
+    forall (order : list (res dist) -> list (res dist)), (forall l, Permutation (order l) l) ->
+    forall (ops : list (wop vec)) (e0 : engine vec dg), e_hot e0 = [] ->
+    let e := wrun digest e0 ops in
+    forall (ann : ann_t vec dist) (qc : qcheck) (q : vec) (k : N) (ef : option N)
+           (cache : option (list (res dist))) (x : hentry vec dg),
+      In x (e_hot e) -> dfin (metric q (h_vec x)) = true ->
+      (forall r e', tiered_search dle dfin metric digest dg_eqb order ann e qc q k ef cache = (Ok r, e') ->
+                    r_path r <> CacheHit -> present_or_beaten vec dist dg dle metric q k x (r_results r))
+      /\ (forall t r e', timed_search dle dfin metric digest dg_eqb order ann e qc q k ef cache t = (Ok r, e') ->
+                    r_path r <> CacheHit -> r_degraded r = false ->
+                    present_or_beaten vec dist dg dle metric q k x (r_results r)).
+Proof.
+  intros vec dist dg dle dfin metric digest dg_eqb Ht Hr Hrefl order Hperm ops e0 H0 e ann qc q k ef cache x Hx Hfin.
+  destruct (api_history_mirrors_ok vec dg digest dg_eqb Hrefl ops e0 H0) as [HN Hall].
+  split.
+  - intros r e' H Hp. eapply (recent_write_complete_fresh vec dist dg dle dfin metric digest dg_eqb Ht Hr order Hperm); eauto.
+  - intros t r e' H Hp Hd. eapply (recent_write_complete_fresh_timed vec dist dg dle dfin metric digest dg_eqb Ht Hr order Hperm); eauto.
+Qed.
+
+(* For ARBITRARY states (mirrors made stale by a race between a bulk load and an insert, or poked directly)
+   the unguarded statement is FALSE in the faithful model (class C06-stale-mirrors-crowd-out-fresh-
    hot-result): well-formed store and hot tier, an oracle meeting the contract, a non-degraded non-cached Ok
    response, a fresh finite mirror entry of an acknowledged document — absent from the result although it is
    strictly closer than the k-th returned document; the guard is exactly what fails (2k stale mirrors, left by
@@ -202,6 +246,17 @@ Proof.
   eexists. eexists. split; [vm_compute; reflexivity|]. vm_compute. auto.
 Qed.
 
+(* Non-vacuity of the history theorem: the operations of the directed scenario (mirrored inserts 1, 2; bulk
+   load overwriting them; insert 9) leave exactly the mirror of 9, and it is fresh; the witness state of
+   C06_recent_write_refuted is therefore not reachable by an API history any more. *)
+Example C06_history_nonvacuous :
+  let e := wrun Witness.digestN (mk_engine [] [])
+             [WInsert 1 1 true; WInsert 2 2 true; WBulkLoad [(1, 50, true); (2, 60, true)]; WInsert 9 5 true]%N in
+  map h_id (e_hot e) = [9%N]
+  /\ map (@cs_ext N N) (e_cold e) = [None; None; Some 1; Some 2; Some 9]%N
+  /\ canonical_vector_state Witness.digestN N.eqb (e_cold e) Witness.x9 = Match.
+Proof. vm_compute. auto. Qed.
+
 Print Assumptions C06_hot_heap_is_topk.
 Print Assumptions C06_merge_sound.
 Print Assumptions C06_cold_sound.
@@ -211,4 +266,6 @@ Print Assumptions C06_search_k_bounds.
 Print Assumptions C06_search_k_oversampling.
 Print Assumptions C06_recent_write_complete.
 Print Assumptions C06_recent_write_complete_timed.
+Print Assumptions C06_api_history_no_stale_mirror.
+Print Assumptions C06_recent_write_complete_api.
 Print Assumptions C06_recent_write_refuted.
